@@ -16,6 +16,8 @@ import (
 
 func init() {
 	register(&PropertyCheck{ID: "C10", Level: "other", Run: checkC10, Canaries: []Canary{
+		{Name: "adv5-A3-size-stated-on-one-path-only", Rule: "R10.4", Where: "(*Publish).String", Edits: []Edit{{"publish.go", "\treturn withForm(p, fmt.Sprintf(\"%s p%v %s%s %v bytes\",\n\t\tfirstByte(p.fixed).String(),\n\t\tp.packetID,\n\t\ttopic,\n\t\tfunc() string {\n\t\t\tif len(p.correlationData) == 0 {\n\t\t\t\treturn \"\"\n\t\t\t}\n\t\t\treturn \" \" + string(p.correlationData)\n\t\t}(),\n\t\tp.width(),\n\t))", "\treturn withForm(p, fmt.Sprintf(\"%s p%v %s%s %s\",\n\t\tfirstByte(p.fixed).String(),\n\t\tp.packetID,\n\t\ttopic,\n\t\tfunc() string {\n\t\t\tif len(p.correlationData) == 0 {\n\t\t\t\treturn \"\"\n\t\t\t}\n\t\t\treturn \" \" + string(p.correlationData)\n\t\t}(),\n\t\thumanSize(p.width()),\n\t))\n}\n\n// humanSize renders the size of a packet, large ones in KiB.\nfunc humanSize(n int) string {\n\tif n >= 10*1024 {\n\t\treturn fmt.Sprintf(\"%.1f KiB\", float64(n)/1024)\n\t}\n\treturn fmt.Sprintf(\"%v bytes\", n)"}}},
+		{Name: "adv5-A1-string-cut-by-a-fmt-precision", Rule: "R10.4", Where: "(*Publish).String", Edits: []Edit{{"publish.go", "\treturn withForm(p, fmt.Sprintf(\"%s p%v %s%s %v bytes\",\n\t\tfirstByte(p.fixed).String(),\n\t\tp.packetID,\n\t\ttopic,\n\t\tfunc() string {\n\t\t\tif len(p.correlationData) == 0 {\n\t\t\t\treturn \"\"\n\t\t\t}\n\t\t\treturn \" \" + string(p.correlationData)\n\t\t}(),\n\t\tp.width(),\n\t))", "\tline := fmt.Sprintf(\"%s p%v %s%s %v bytes\",\n\t\tfirstByte(p.fixed).String(),\n\t\tp.packetID,\n\t\ttopic,\n\t\tfunc() string {\n\t\t\tif len(p.correlationData) == 0 {\n\t\t\t\treturn \"\"\n\t\t\t}\n\t\t\treturn \" \" + string(p.correlationData)\n\t\t}(),\n\t\tp.width(),\n\t)\n\t// long topic names or correlation data must not flood a log:\n\t// keep the summary within one line\n\treturn withForm(p, fmt.Sprintf(\"%.120s\", line))"}}},
 		{Name: "rf7-generic-fillprop-helper", Silent: true, Edits: []Edit{{"wiretypes.go", "// firstByte represents the first byte in a control packet.\ntype firstByte byte\n\n// String returns a readable string TYPEFLAGS, e.g. PUBLISH d1-r\nfunc (f firstByte) String() string {\n\tvar sb strings.Builder\n\tsb.WriteString(typeNames[byte(f)&0b1111_0000])\n\tsb.WriteString(\" \")\n\tflags := []byte(\"----\")\n\tif bits(f).Has(DUP) {\n\t\tflags[0] = 'd'\n\t}\n\tswitch {\n\tcase bits(f).Has(QoS3):\n\t\tflags[1] = '!' // malformed\n\t\tflags[2] = '!' // malformed\n\tcase bits(f).Has(QoS1):\n\t\tflags[2] = '1'\n\tcase bits(f).Has(QoS2):\n\t\tflags[1] = '2'\n\t}\n\tif bits(f).Has(RETAIN) {\n\t\tflags[3] = 'r'\n\t}\n\tsb.Write(flags)\n\treturn sb.String()\n}\n\n// https://docs.oasis-open.org/mqtt/mqtt/v5.0/os/mqtt-v5.0-os.html#_Toc3901013\ntype UserProp [2]string\n\nfunc (v UserProp) fillProp(data []byte, i int, id Ident) int {\n\tif len(v[0]) == 0 {\n\t\treturn 0\n\t}\n\tn := i\n\ti += id.fill(data, i)\n\ti += v.fill(data, i)\n\treturn i - n\n}\nfunc (v UserProp) fill(data []byte, i int) int {\n\ti += wstring(v[0]).fill(data, i)\n\t_ = wstring(v[1]).fill(data, i)\n\treturn v.width()\n}\n\nfunc (v *UserProp) UnmarshalBinary(data []byte) error {\n\tvar key wstring\n\tif err := key.UnmarshalBinary(data); err != nil {\n\t\treturn unmarshalErr(v, \"key\", err.(*Malformed))\n\t}\n\tv[0] = string(key)\n\n\ti := len(v[0]) + 2\n\tvar val wstring\n\tif err := val.UnmarshalBinary(data[i:]); err != nil {\n\t\treturn unmarshalErr(v, \"value\", err.(*Malformed))\n\t}\n\tv[1] = string(val)\n\treturn nil\n}\nfunc (v UserProp) String() string {\n\treturn fmt.Sprintf(\"%s:%s\", v[0], v[1])\n}\nfunc (v UserProp) width() int {\n\treturn wstring(v[0]).width() + wstring(v[1]).width()\n}\n\n// https://docs.oasis-open.org/mqtt/mqtt/v5.0/os/mqtt-v5.0-os.html#_Toc3901010\ntype wstring = bindata\n\n// https://docs.oasis-open.org/mqtt/mqtt/v5.0/os/mqtt-v5.0-os.html#_Toc3901012\ntype bindata []byte\n\nfunc (v bindata) fillProp(data []byte, i int, id Ident) int {\n\tif len(v) == 0 {\n\t\treturn 0\n\t}\n\tn := i\n\ti += id.fill(data, i)\n\ti += v.fill(data, i)\n\treturn i - n\n}\nfunc (v bindata) fill(data []byte, i int) int {\n\tif len(data) >= i+v.width() {\n\t\ti += wuint16(len(v)).fill(data, i)\n\t\tcopy(data[i:], []byte(v))\n\t}\n\treturn v.width()\n}\n\nfunc (v *bindata) UnmarshalBinary(data []byte) error {\n\tif len(data) < 2 {\n\t\treturn unmarshalErr(v, \"\", \"missing data\")\n\t}\n\tlength := int(binary.BigEndian.Uint16(data))\n\tif len(data) < length+2 {\n\t\treturn unmarshalErr(v, \"\", \"missing data\")\n\t}\n\tif length == 0 {\n\t\treturn nil\n\t}\n\t*v = make([]byte, length)\n\tcopy(*v, data[2:length+2])\n\treturn nil\n}\n\nfunc (v bindata) width() int {\n\treturn 2 + len(v)\n}\n\ntype rawdata []byte\n\nfunc (v *rawdata) UnmarshalBinary(data []byte) error {\n\t*v = make([]byte, len(data))\n\tcopy(*v, data)\n\treturn nil\n}\nfunc (v rawdata) fill(data []byte, i int) int {\n\tif len(data) >= i+v.width() {\n\t\treturn copy(data[i:], []byte(v))\n\t}\n\treturn v.width()\n}\nfunc (v rawdata) width() int {\n\treturn len(v)\n}\n\n// fillProp is here to fullfill the wireType interface, though it\n// cannot be used as a property as the length is not written. fillProp\n// always panics.\nfunc (v rawdata) fillProp(data []byte, i int, id Ident) int {\n\tpanic(\"cannot use rawdata as property\")\n}\n\n// https://docs.oasis-open.org/mqtt/mqtt/v5.0/os/mqtt-v5.0-os.html#_Toc3901011\ntype vbint uint\n\nfunc (v vbint) fillProp(data []byte, i int, id Ident) int {\n\tif v == 0 {\n\t\treturn 0\n\t}\n\tn := i\n\ti += id.fill(data, i)\n\ti += v.fill(data, i)\n\treturn i - n\n}\n\nfunc (v vbint) fill(data []byte, i int) int {\n\tx := v\n\tn := i\n\tfor {\n\t\tencodedByte := byte(x % 128)\n\t\tx = x / 128\n\t\tif x > 0 {\n\t\t\tencodedByte = encodedByte | 128\n\t\t}\n\t\tif i < len(data) {\n\t\t\tdata[i] = encodedByte\n\t\t}\n\t\ti++\n\t\tif x == 0 {\n\t\t\tbreak\n\t\t}\n\t}\n\treturn i - n\n}\n\nfunc (v vbint) width() int {\n\treturn v.fill(_LEN, 0)\n}\n\nfunc (v *vbint) ReadFrom(r io.Reader) (int64, error) {\n\tvar multiplier uint = 1\n\tvar value uint\n\tdata := make([]byte, 1)\n\tvar i int64\n\tfor {\n\t\tif _, err := io.ReadFull(r, data); err != nil {\n\t\t\treturn i, err\n\t\t}\n\t\ti++\n\t\tencodedByte := data[0]\n\t\tvalue += uint(encodedByte) & uint(127) * multiplier\n\t\tif multiplier > 128*128*128 {\n\t\t\treturn i, unmarshalErr(v, \"\", \"size exceeded\")\n\t\t}\n\t\tif encodedByte&128 == 0 {\n\t\t\tbreak\n\t\t}\n\t\tmultiplier = multiplier * 128\n\t}\n\t*v = vbint(value)\n\treturn i, nil\n}\n\n// UnmarshalBinary data, returns nil or *Malformed error\nfunc (v *vbint) UnmarshalBinary(data []byte) error {\n\tif len(data) == 0 {\n\t\treturn unmarshalErr(v, \"\", \"missing data\")\n\t}\n\tvar multiplier uint = 1\n\tvar value uint\n\tfor _, encodedByte := range data {\n\t\tvalue += uint(encodedByte) & uint(127) * multiplier\n\t\tif multiplier > 128*128*128 {\n\t\t\treturn unmarshalErr(v, \"\", \"size exceeded\")\n\t\t}\n\t\tif encodedByte&128 == 0 {\n\t\t\t*v = vbint(value)\n\t\t\treturn nil\n\t\t}\n\t\tmultiplier = multiplier * 128\n\t}\n\treturn unmarshalErr(v, \"\", \"missing data\")\n}\n\n// wire types\ntype (\n\twuint8 = bits // byte\n)\n\ntype wbool bool\n\nfunc (v wbool) fillProp(data []byte, i int, id Ident) int {\n\tif !v {\n\t\treturn 0\n\t}\n\tn := i\n\ti += id.fill(data, i)\n\ti += v.fill(data, i)\n\treturn i - n\n}\nfunc (v wbool) fill(data []byte, i int) int {\n\tif len(data) >= i+1 {\n\t\tif v {\n\t\t\tdata[i] = 0x01\n\t\t} else {\n\t\t\tdata[i] = 0x00\n\t\t}\n\t}\n\treturn 1\n}\nfunc (v *wbool) UnmarshalBinary(data []byte) error {\n\tif len(data) < 1 {\n\t\treturn ErrMissingData\n\t}\n\tswitch data[0] {\n\tcase 0:\n\t\t*v = wbool(false)\n\tcase 1:\n\t\t*v = wbool(true)\n\tdefault:\n\t\treturn fmt.Errorf(\"malformed bool\")\n\t}\n\treturn nil\n}\nfunc (v wbool) width() int { return 1 }\n\n// https://docs.oasis-open.org/mqtt/mqtt/v5.0/os/mqtt-v5.0-os.html#_Toc3901007\ntype bits byte\n\nfunc (v bits) Has(b byte) bool { return byte(v)&b == b }\n\nfunc (v bits) fillProp(data []byte, i int, id Ident) int {\n\tif v == 0 {\n\t\treturn 0\n\t}\n\tn := i\n\ti += id.fill(data, i)\n\ti += v.fill(data, i)\n\treturn i - n\n}\n\nfunc (v bits) fill(data []byte, i int) int {\n\tif len(data) >= i+1 {\n\t\tdata[i] = byte(v)\n\t}\n\treturn 1\n}\n\n// fillOpt fills the bits if > 0\nfunc (v bits) fillOpt(data []byte, i int) int {\n\tif v == 0 {\n\t\treturn 0\n\t}\n\treturn v.fill(data, i)\n}\n\nfunc (v *bits) ReadFrom(r io.Reader) (int64, error) {\n\tdata := make([]byte, 1)\n\tif n, err := io.ReadFull(r, data); err != nil {\n\t\treturn int64(n), err\n\t}\n\treturn 1, v.UnmarshalBinary(data)\n}\nfunc (v *bits) UnmarshalBinary(data []byte) error {\n\tif len(data) < 1 {\n\t\treturn ErrMissingData\n\t}\n\t*v = bits(data[0])\n\treturn nil\n}\nfunc (v bits) width() int { return 1 }\nfunc (v *bits) toggle(flag byte, on bool) {\n\tif on {\n\t\t*v = *v | bits(flag)\n\t\treturn\n\t}\n\t*v = *v & bits(^flag)\n}\n\n// https://docs.oasis-open.org/mqtt/mqtt/v5.0/os/mqtt-v5.0-os.html#_Toc3901008\ntype wuint16 uint16\n\nfunc (v wuint16) fillProp(data []byte, i int, id Ident) int {\n\tif v == 0 {\n\t\treturn 0\n\t}\n\tn := i\n\ti += id.fill(data, i)\n\ti += v.fill(data, i)\n\treturn i - n\n}\n\nfunc (v wuint16) fill(data []byte, i int) int {\n\tif len(data) >= i+2 {\n\t\tbinary.BigEndian.PutUint16(data[i:], uint16(v))\n\t}\n\treturn 2\n}\n\nfunc (v *wuint16) UnmarshalBinary(data []byte) error {\n\tif len(data) < 2 {\n\t\treturn ErrMissingData\n\t}\n\t*v = wuint16(binary.BigEndian.Uint16(data))\n\treturn nil\n}\n\nfunc (v wuint16) width() int { return 2 }\n\n// https://docs.oasis-open.org/mqtt/mqtt/v5.0/os/mqtt-v5.0-os.html#_Toc3901009\ntype wuint32 uint32\n\nfunc (v wuint32) fillProp(data []byte, i int, id Ident) int {\n\tif v == 0 {\n\t\treturn 0\n\t}\n\tn := i\n\ti += id.fill(data, i)\n\ti += v.fill(data, i)\n\treturn i - n", "// filler is the part of a wireType that is needed for writing a\n// value, it's implemented by the value types and not only the pointers.\ntype filler interface {\n\tfill(buf []byte, i int) int\n}\n\n// fillPropOf writes the identifier followed by the value at position\n// i and returns the number of bytes that make up the property.  Each\n// type decides on its own if the value is empty and should be left\n// out, before calling this func.\nfunc fillPropOf[T filler](v T, data []byte, i int, id Ident) int {\n\tstart := i\n\ti += id.fill(data, i)\n\ti += v.fill(data, i)\n\treturn i - start\n}\n\n// firstByte represents the first byte in a control packet.\ntype firstByte byte\n\n// String returns a readable string TYPEFLAGS, e.g. PUBLISH d1-r\nfunc (f firstByte) String() string {\n\tvar sb strings.Builder\n\tsb.WriteString(typeNames[byte(f)&0b1111_0000])\n\tsb.WriteString(\" \")\n\tflags := []byte(\"----\")\n\tif bits(f).Has(DUP) {\n\t\tflags[0] = 'd'\n\t}\n\tswitch {\n\tcase bits(f).Has(QoS3):\n\t\tflags[1] = '!' // malformed\n\t\tflags[2] = '!' // malformed\n\tcase bits(f).Has(QoS1):\n\t\tflags[2] = '1'\n\tcase bits(f).Has(QoS2):\n\t\tflags[1] = '2'\n\t}\n\tif bits(f).Has(RETAIN) {\n\t\tflags[3] = 'r'\n\t}\n\tsb.Write(flags)\n\treturn sb.String()\n}\n\n// https://docs.oasis-open.org/mqtt/mqtt/v5.0/os/mqtt-v5.0-os.html#_Toc3901013\ntype UserProp [2]string\n\nfunc (v UserProp) fillProp(data []byte, i int, id Ident) int {\n\tif len(v[0]) == 0 {\n\t\treturn 0\n\t}\n\treturn fillPropOf(v, data, i, id)\n}\nfunc (v UserProp) fill(data []byte, i int) int {\n\ti += wstring(v[0]).fill(data, i)\n\t_ = wstring(v[1]).fill(data, i)\n\treturn v.width()\n}\n\nfunc (v *UserProp) UnmarshalBinary(data []byte) error {\n\tvar key wstring\n\tif err := key.UnmarshalBinary(data); err != nil {\n\t\treturn unmarshalErr(v, \"key\", err.(*Malformed))\n\t}\n\tv[0] = string(key)\n\n\ti := len(v[0]) + 2\n\tvar val wstring\n\tif err := val.UnmarshalBinary(data[i:]); err != nil {\n\t\treturn unmarshalErr(v, \"value\", err.(*Malformed))\n\t}\n\tv[1] = string(val)\n\treturn nil\n}\nfunc (v UserProp) String() string {\n\treturn fmt.Sprintf(\"%s:%s\", v[0], v[1])\n}\nfunc (v UserProp) width() int {\n\treturn wstring(v[0]).width() + wstring(v[1]).width()\n}\n\n// https://docs.oasis-open.org/mqtt/mqtt/v5.0/os/mqtt-v5.0-os.html#_Toc3901010\ntype wstring = bindata\n\n// https://docs.oasis-open.org/mqtt/mqtt/v5.0/os/mqtt-v5.0-os.html#_Toc3901012\ntype bindata []byte\n\nfunc (v bindata) fillProp(data []byte, i int, id Ident) int {\n\tif len(v) == 0 {\n\t\treturn 0\n\t}\n\treturn fillPropOf(v, data, i, id)\n}\nfunc (v bindata) fill(data []byte, i int) int {\n\tif len(data) >= i+v.width() {\n\t\ti += wuint16(len(v)).fill(data, i)\n\t\tcopy(data[i:], []byte(v))\n\t}\n\treturn v.width()\n}\n\nfunc (v *bindata) UnmarshalBinary(data []byte) error {\n\tif len(data) < 2 {\n\t\treturn unmarshalErr(v, \"\", \"missing data\")\n\t}\n\tlength := int(binary.BigEndian.Uint16(data))\n\tif len(data) < length+2 {\n\t\treturn unmarshalErr(v, \"\", \"missing data\")\n\t}\n\tif length == 0 {\n\t\treturn nil\n\t}\n\t*v = make([]byte, length)\n\tcopy(*v, data[2:length+2])\n\treturn nil\n}\n\nfunc (v bindata) width() int {\n\treturn 2 + len(v)\n}\n\ntype rawdata []byte\n\nfunc (v *rawdata) UnmarshalBinary(data []byte) error {\n\t*v = make([]byte, len(data))\n\tcopy(*v, data)\n\treturn nil\n}\nfunc (v rawdata) fill(data []byte, i int) int {\n\tif len(data) >= i+v.width() {\n\t\treturn copy(data[i:], []byte(v))\n\t}\n\treturn v.width()\n}\nfunc (v rawdata) width() int {\n\treturn len(v)\n}\n\n// fillProp is here to fullfill the wireType interface, though it\n// cannot be used as a property as the length is not written. fillProp\n// always panics.\nfunc (v rawdata) fillProp(data []byte, i int, id Ident) int {\n\tpanic(\"cannot use rawdata as property\")\n}\n\n// https://docs.oasis-open.org/mqtt/mqtt/v5.0/os/mqtt-v5.0-os.html#_Toc3901011\ntype vbint uint\n\nfunc (v vbint) fillProp(data []byte, i int, id Ident) int {\n\tif v == 0 {\n\t\treturn 0\n\t}\n\treturn fillPropOf(v, data, i, id)\n}\n\nfunc (v vbint) fill(data []byte, i int) int {\n\tx := v\n\tn := i\n\tfor {\n\t\tencodedByte := byte(x % 128)\n\t\tx = x / 128\n\t\tif x > 0 {\n\t\t\tencodedByte = encodedByte | 128\n\t\t}\n\t\tif i < len(data) {\n\t\t\tdata[i] = encodedByte\n\t\t}\n\t\ti++\n\t\tif x == 0 {\n\t\t\tbreak\n\t\t}\n\t}\n\treturn i - n\n}\n\nfunc (v vbint) width() int {\n\treturn v.fill(_LEN, 0)\n}\n\nfunc (v *vbint) ReadFrom(r io.Reader) (int64, error) {\n\tvar multiplier uint = 1\n\tvar value uint\n\tdata := make([]byte, 1)\n\tvar i int64\n\tfor {\n\t\tif _, err := io.ReadFull(r, data); err != nil {\n\t\t\treturn i, err\n\t\t}\n\t\ti++\n\t\tencodedByte := data[0]\n\t\tvalue += uint(encodedByte) & uint(127) * multiplier\n\t\tif multiplier > 128*128*128 {\n\t\t\treturn i, unmarshalErr(v, \"\", \"size exceeded\")\n\t\t}\n\t\tif encodedByte&128 == 0 {\n\t\t\tbreak\n\t\t}\n\t\tmultiplier = multiplier * 128\n\t}\n\t*v = vbint(value)\n\treturn i, nil\n}\n\n// UnmarshalBinary data, returns nil or *Malformed error\nfunc (v *vbint) UnmarshalBinary(data []byte) error {\n\tif len(data) == 0 {\n\t\treturn unmarshalErr(v, \"\", \"missing data\")\n\t}\n\tvar multiplier uint = 1\n\tvar value uint\n\tfor _, encodedByte := range data {\n\t\tvalue += uint(encodedByte) & uint(127) * multiplier\n\t\tif multiplier > 128*128*128 {\n\t\t\treturn unmarshalErr(v, \"\", \"size exceeded\")\n\t\t}\n\t\tif encodedByte&128 == 0 {\n\t\t\t*v = vbint(value)\n\t\t\treturn nil\n\t\t}\n\t\tmultiplier = multiplier * 128\n\t}\n\treturn unmarshalErr(v, \"\", \"missing data\")\n}\n\n// wire types\ntype (\n\twuint8 = bits // byte\n)\n\ntype wbool bool\n\nfunc (v wbool) fillProp(data []byte, i int, id Ident) int {\n\tif !v {\n\t\treturn 0\n\t}\n\treturn fillPropOf(v, data, i, id)\n}\nfunc (v wbool) fill(data []byte, i int) int {\n\tif len(data) >= i+1 {\n\t\tif v {\n\t\t\tdata[i] = 0x01\n\t\t} else {\n\t\t\tdata[i] = 0x00\n\t\t}\n\t}\n\treturn 1\n}\nfunc (v *wbool) UnmarshalBinary(data []byte) error {\n\tif len(data) < 1 {\n\t\treturn ErrMissingData\n\t}\n\tswitch data[0] {\n\tcase 0:\n\t\t*v = wbool(false)\n\tcase 1:\n\t\t*v = wbool(true)\n\tdefault:\n\t\treturn fmt.Errorf(\"malformed bool\")\n\t}\n\treturn nil\n}\nfunc (v wbool) width() int { return 1 }\n\n// https://docs.oasis-open.org/mqtt/mqtt/v5.0/os/mqtt-v5.0-os.html#_Toc3901007\ntype bits byte\n\nfunc (v bits) Has(b byte) bool { return byte(v)&b == b }\n\nfunc (v bits) fillProp(data []byte, i int, id Ident) int {\n\tif v == 0 {\n\t\treturn 0\n\t}\n\treturn fillPropOf(v, data, i, id)\n}\n\nfunc (v bits) fill(data []byte, i int) int {\n\tif len(data) >= i+1 {\n\t\tdata[i] = byte(v)\n\t}\n\treturn 1\n}\n\n// fillOpt fills the bits if > 0\nfunc (v bits) fillOpt(data []byte, i int) int {\n\tif v == 0 {\n\t\treturn 0\n\t}\n\treturn v.fill(data, i)\n}\n\nfunc (v *bits) ReadFrom(r io.Reader) (int64, error) {\n\tdata := make([]byte, 1)\n\tif n, err := io.ReadFull(r, data); err != nil {\n\t\treturn int64(n), err\n\t}\n\treturn 1, v.UnmarshalBinary(data)\n}\nfunc (v *bits) UnmarshalBinary(data []byte) error {\n\tif len(data) < 1 {\n\t\treturn ErrMissingData\n\t}\n\t*v = bits(data[0])\n\treturn nil\n}\nfunc (v bits) width() int { return 1 }\nfunc (v *bits) toggle(flag byte, on bool) {\n\tif on {\n\t\t*v = *v | bits(flag)\n\t\treturn\n\t}\n\t*v = *v & bits(^flag)\n}\n\n// https://docs.oasis-open.org/mqtt/mqtt/v5.0/os/mqtt-v5.0-os.html#_Toc3901008\ntype wuint16 uint16\n\nfunc (v wuint16) fillProp(data []byte, i int, id Ident) int {\n\tif v == 0 {\n\t\treturn 0\n\t}\n\treturn fillPropOf(v, data, i, id)\n}\n\nfunc (v wuint16) fill(data []byte, i int) int {\n\tif len(data) >= i+2 {\n\t\tbinary.BigEndian.PutUint16(data[i:], uint16(v))\n\t}\n\treturn 2\n}\n\nfunc (v *wuint16) UnmarshalBinary(data []byte) error {\n\tif len(data) < 2 {\n\t\treturn ErrMissingData\n\t}\n\t*v = wuint16(binary.BigEndian.Uint16(data))\n\treturn nil\n}\n\nfunc (v wuint16) width() int { return 2 }\n\n// https://docs.oasis-open.org/mqtt/mqtt/v5.0/os/mqtt-v5.0-os.html#_Toc3901009\ntype wuint32 uint32\n\nfunc (v wuint32) fillProp(data []byte, i int, id Ident) int {\n\tif v == 0 {\n\t\treturn 0\n\t}\n\treturn fillPropOf(v, data, i, id)"}}},
 		{Name: "rf7-builder-reset-when-long", Rule: "R10.4", Where: "String", Edits: []Edit{{"connack.go", ")\n\nfunc NewConnAck() *ConnAck {\n\treturn &ConnAck{\n\t\tfixed: bits(CONNACK),\n\t}\n}\n\ntype ConnAck struct {\n\tfixed      bits\n\tflags      bits // sessionPresent as 7-1 are reserved\n\treasonCode wuint8\n\n\t// properties\n\tsessionExpiryInterval wuint32\n\treceiveMax            wuint16\n\tmaxQoS                wuint8 // 0 or 1, 2\n\tretainAvailable       wbool\n\tmaxPacketSize         wuint32\n\tassignedClientID      wstring\n\ttopicAliasMax         wuint16\n\treasonString          wstring\n\n\tUserProperties\n\twildcardSubAvailable    wbool\n\tsubIdentifiersAvailable wbool\n\tsharedSubAvailable      wbool\n\tserverKeepAlive         wuint16\n\tresponseInformation     wstring\n\tserverReference         wstring\n\tauthMethod              wstring\n\tauthData                bindata\n}\n\nfunc (p *ConnAck) HasFlag(v byte) bool { return p.flags.Has(v) }\n\nfunc (p *ConnAck) SetSessionPresent(v bool) { p.flags.toggle(1, v) }\nfunc (p *ConnAck) SessionPresent() bool     { return p.flags.Has(1) }\n\nfunc (p *ConnAck) SetSessionExpiryInterval(v uint32) { p.sessionExpiryInterval = wuint32(v) }\nfunc (p *ConnAck) SessionExpiryInterval() uint32     { return uint32(p.sessionExpiryInterval) }\n\nfunc (p *ConnAck) SetReceiveMax(v uint16) { p.receiveMax = wuint16(v) }\nfunc (p *ConnAck) ReceiveMax() uint16     { return uint16(p.receiveMax) }\n\nfunc (p *ConnAck) SetMaxQoS(v uint8) { p.maxQoS = wuint8(v) }\nfunc (p *ConnAck) MaxQoS() uint8     { return uint8(p.maxQoS) }\n\nfunc (p *ConnAck) SetRetainAvailable(v bool) { p.retainAvailable = wbool(v) }\nfunc (p *ConnAck) RetainAvailable() bool     { return bool(p.retainAvailable) }\n\nfunc (p *ConnAck) SetMaxPacketSize(v uint32) { p.maxPacketSize = wuint32(v) }\nfunc (p *ConnAck) MaxPacketSize() uint32     { return uint32(p.maxPacketSize) }\n\nfunc (p *ConnAck) SetAssignedClientID(v string) { p.assignedClientID = wstring(v) }\nfunc (p *ConnAck) AssignedClientID() string     { return string(p.assignedClientID) }\n\nfunc (p *ConnAck) SetTopicAliasMax(v uint16) { p.topicAliasMax = wuint16(v) }\nfunc (p *ConnAck) TopicAliasMax() uint16     { return uint16(p.topicAliasMax) }\n\nfunc (p *ConnAck) SetReasonCode(v ReasonCode) { p.reasonCode = wuint8(v) }\nfunc (p *ConnAck) ReasonCode() ReasonCode     { return ReasonCode(p.reasonCode) }\n\nfunc (p *ConnAck) SetReasonString(v string) { p.reasonString = wstring(v) }\nfunc (p *ConnAck) ReasonString() string     { return string(p.reasonString) }\n\nfunc (p *ConnAck) SetWildcardSubAvailable(v bool) { p.wildcardSubAvailable = wbool(v) }\nfunc (p *ConnAck) WildcardSubAvailable() bool     { return bool(p.wildcardSubAvailable) }\n\nfunc (p *ConnAck) SetSubIdentifiersAvailable(v bool) { p.subIdentifiersAvailable = wbool(v) }\nfunc (p *ConnAck) SubIdentifiersAvailable() bool     { return bool(p.subIdentifiersAvailable) }\n\nfunc (p *ConnAck) SetSharedSubAvailable(v bool) { p.sharedSubAvailable = wbool(v) }\nfunc (p *ConnAck) SharedSubAvailable() bool     { return bool(p.sharedSubAvailable) }\n\nfunc (p *ConnAck) SetServerKeepAlive(v uint16) { p.serverKeepAlive = wuint16(v) }\nfunc (p *ConnAck) ServerKeepAlive() uint16     { return uint16(p.serverKeepAlive) }\n\nfunc (p *ConnAck) SetResponseInformation(v string) { p.responseInformation = wstring(v) }\nfunc (p *ConnAck) ResponseInformation() string     { return string(p.responseInformation) }\n\nfunc (p *ConnAck) SetServerReference(v string) { p.serverReference = wstring(v) }\nfunc (p *ConnAck) ServerReference() string     { return string(p.serverReference) }\n\nfunc (p *ConnAck) SetAuthMethod(v string) { p.authMethod = wstring(v) }\nfunc (p *ConnAck) AuthMethod() string     { return string(p.authMethod) }\n\nfunc (p *ConnAck) SetAuthData(v []byte) { p.authData = bindata(v) }\nfunc (p *ConnAck) AuthData() []byte     { return []byte(p.authData) }\n\n// end settings\n// ----------------------------------------\n\nfunc (p *ConnAck) String() string {\n\treturn withReason(p, fmt.Sprintf(\"%s %s %s %v bytes\",\n\t\tfirstByte(p.fixed).String(),\n\t\tconnAckFlags(p.flags),\n\t\tp.assignedClientID,\n\t\tp.width(),\n\t))\n}\n\nfunc withReason(p HasReason, v string) string {\n\tif code := p.ReasonCode(); code >= 0x80 {\n\t\tif p, ok := p.(interface{ ReasonString() string }); ok {\n\t\t\tif r := p.ReasonString(); r != \"\" {\n\t\t\t\treturn fmt.Sprintf(\"%s %s! %s\", v, code.String(), r)\n\t\t\t}\n\t\t}\n\t\treturn fmt.Sprintf(\"%s %s!\", v, code.String())\n\t}\n\treturn v", "\t\"strings\"\n)\n\nfunc NewConnAck() *ConnAck {\n\treturn &ConnAck{\n\t\tfixed: bits(CONNACK),\n\t}\n}\n\ntype ConnAck struct {\n\tfixed      bits\n\tflags      bits // sessionPresent as 7-1 are reserved\n\treasonCode wuint8\n\n\t// properties\n\tsessionExpiryInterval wuint32\n\treceiveMax            wuint16\n\tmaxQoS                wuint8 // 0 or 1, 2\n\tretainAvailable       wbool\n\tmaxPacketSize         wuint32\n\tassignedClientID      wstring\n\ttopicAliasMax         wuint16\n\treasonString          wstring\n\n\tUserProperties\n\twildcardSubAvailable    wbool\n\tsubIdentifiersAvailable wbool\n\tsharedSubAvailable      wbool\n\tserverKeepAlive         wuint16\n\tresponseInformation     wstring\n\tserverReference         wstring\n\tauthMethod              wstring\n\tauthData                bindata\n}\n\nfunc (p *ConnAck) HasFlag(v byte) bool { return p.flags.Has(v) }\n\nfunc (p *ConnAck) SetSessionPresent(v bool) { p.flags.toggle(1, v) }\nfunc (p *ConnAck) SessionPresent() bool     { return p.flags.Has(1) }\n\nfunc (p *ConnAck) SetSessionExpiryInterval(v uint32) { p.sessionExpiryInterval = wuint32(v) }\nfunc (p *ConnAck) SessionExpiryInterval() uint32     { return uint32(p.sessionExpiryInterval) }\n\nfunc (p *ConnAck) SetReceiveMax(v uint16) { p.receiveMax = wuint16(v) }\nfunc (p *ConnAck) ReceiveMax() uint16     { return uint16(p.receiveMax) }\n\nfunc (p *ConnAck) SetMaxQoS(v uint8) { p.maxQoS = wuint8(v) }\nfunc (p *ConnAck) MaxQoS() uint8     { return uint8(p.maxQoS) }\n\nfunc (p *ConnAck) SetRetainAvailable(v bool) { p.retainAvailable = wbool(v) }\nfunc (p *ConnAck) RetainAvailable() bool     { return bool(p.retainAvailable) }\n\nfunc (p *ConnAck) SetMaxPacketSize(v uint32) { p.maxPacketSize = wuint32(v) }\nfunc (p *ConnAck) MaxPacketSize() uint32     { return uint32(p.maxPacketSize) }\n\nfunc (p *ConnAck) SetAssignedClientID(v string) { p.assignedClientID = wstring(v) }\nfunc (p *ConnAck) AssignedClientID() string     { return string(p.assignedClientID) }\n\nfunc (p *ConnAck) SetTopicAliasMax(v uint16) { p.topicAliasMax = wuint16(v) }\nfunc (p *ConnAck) TopicAliasMax() uint16     { return uint16(p.topicAliasMax) }\n\nfunc (p *ConnAck) SetReasonCode(v ReasonCode) { p.reasonCode = wuint8(v) }\nfunc (p *ConnAck) ReasonCode() ReasonCode     { return ReasonCode(p.reasonCode) }\n\nfunc (p *ConnAck) SetReasonString(v string) { p.reasonString = wstring(v) }\nfunc (p *ConnAck) ReasonString() string     { return string(p.reasonString) }\n\nfunc (p *ConnAck) SetWildcardSubAvailable(v bool) { p.wildcardSubAvailable = wbool(v) }\nfunc (p *ConnAck) WildcardSubAvailable() bool     { return bool(p.wildcardSubAvailable) }\n\nfunc (p *ConnAck) SetSubIdentifiersAvailable(v bool) { p.subIdentifiersAvailable = wbool(v) }\nfunc (p *ConnAck) SubIdentifiersAvailable() bool     { return bool(p.subIdentifiersAvailable) }\n\nfunc (p *ConnAck) SetSharedSubAvailable(v bool) { p.sharedSubAvailable = wbool(v) }\nfunc (p *ConnAck) SharedSubAvailable() bool     { return bool(p.sharedSubAvailable) }\n\nfunc (p *ConnAck) SetServerKeepAlive(v uint16) { p.serverKeepAlive = wuint16(v) }\nfunc (p *ConnAck) ServerKeepAlive() uint16     { return uint16(p.serverKeepAlive) }\n\nfunc (p *ConnAck) SetResponseInformation(v string) { p.responseInformation = wstring(v) }\nfunc (p *ConnAck) ResponseInformation() string     { return string(p.responseInformation) }\n\nfunc (p *ConnAck) SetServerReference(v string) { p.serverReference = wstring(v) }\nfunc (p *ConnAck) ServerReference() string     { return string(p.serverReference) }\n\nfunc (p *ConnAck) SetAuthMethod(v string) { p.authMethod = wstring(v) }\nfunc (p *ConnAck) AuthMethod() string     { return string(p.authMethod) }\n\nfunc (p *ConnAck) SetAuthData(v []byte) { p.authData = bindata(v) }\nfunc (p *ConnAck) AuthData() []byte     { return []byte(p.authData) }\n\n// end settings\n// ----------------------------------------\n\nfunc (p *ConnAck) String() string {\n\treturn withReason(p, fmt.Sprintf(\"%s %s %s %v bytes\",\n\t\tfirstByte(p.fixed).String(),\n\t\tconnAckFlags(p.flags),\n\t\tp.assignedClientID,\n\t\tp.width(),\n\t))\n}\n\n// withReason appends the reason code, and the reason string if any,\n// to v for failures, i.e. reason codes >= 0x80.\nfunc withReason(p HasReason, v string) string {\n\tcode := p.ReasonCode()\n\tif code < 0x80 {\n\t\treturn v\n\t}\n\tvar sb strings.Builder\n\tsb.WriteString(v)\n\tif sb.Len() > 120 {\n\t\tsb.Reset()\n\t}\n\tsb.WriteByte(' ')\n\tsb.WriteString(code.String())\n\tsb.WriteByte('!')\n\tif p, ok := p.(interface{ ReasonString() string }); ok {\n\t\tif r := p.ReasonString(); r != \"\" {\n\t\t\tsb.WriteByte(' ')\n\t\t\tsb.WriteString(r)\n\t\t}\n\t}\n\treturn sb.String()"}, {"puback.go", ")\n\n// NewPubAck returns control packet with type PUBACK\nfunc NewPubAck() *PubAck {\n\treturn &PubAck{fixed: bits(PUBACK)}\n}\n\n// A PubAck packet is the response to a Publish packets, depending on\n// the fixed header it can be one of PUBACK, PUBREC, PUBREL or PUBCOMP\ntype PubAck struct {\n\tfixed bits\n\n\tpacketID   wuint16\n\treasonCode wuint8\n\treason     wstring\n\tUserProperties\n}\n\nfunc (p *PubAck) String() string {\n\treturn withReason(p, fmt.Sprintf(\"%s p%v %v bytes\",\n\t\tfirstByte(p.fixed).String(),\n\t\tp.packetID,\n\t\tp.width(),\n\t))", "\t\"strings\"\n)\n\n// NewPubAck returns control packet with type PUBACK\nfunc NewPubAck() *PubAck {\n\treturn &PubAck{fixed: bits(PUBACK)}\n}\n\n// A PubAck packet is the response to a Publish packets, depending on\n// the fixed header it can be one of PUBACK, PUBREC, PUBREL or PUBCOMP\ntype PubAck struct {\n\tfixed bits\n\n\tpacketID   wuint16\n\treasonCode wuint8\n\treason     wstring\n\tUserProperties\n}\n\nfunc (p *PubAck) String() string {\n\treturn withReason(p, fmt.Sprintf(\"%s p%v %v bytes\",\n\t\tfirstByte(p.fixed).String(),\n\t\tp.packetID,\n\t\tp.width(),\n\t))\n}\n\n// ackString returns the short form used by PUBREC and PUBCOMP which\n// always includes the reason code, the reason string follows only if\n// the code is not Success.\nfunc ackString(fixed bits, id wuint16, code wuint8, reason wstring, size int) string {\n\tvar sb strings.Builder\n\tsb.WriteString(firstByte(fixed).String())\n\tfmt.Fprintf(&sb, \" p%v \", id)\n\tsb.WriteString(ReasonCode(code).String())\n\tif code > 0 && len(reason) > 0 {\n\t\tsb.WriteByte(' ')\n\t\tsb.Write(reason)\n\t}\n\tfmt.Fprintf(&sb, \" %v bytes\", size)\n\treturn sb.String()"}, {"pubcomp.go", "\treturn fmt.Sprintf(\"%s p%v %s%s %v bytes\",\n\t\tfirstByte(p.fixed).String(),\n\t\tp.packetID,\n\t\tReasonCode(p.reasonCode).String(),\n\t\tfunc() string {\n\t\t\tif p.reasonCode > 0 && len(p.reason) > 0 {\n\t\t\t\treturn \" \" + string(p.reason)\n\t\t\t}\n\t\t\treturn \"\"\n\t\t}(),\n\t\tp.width(),\n\t)", "\treturn ackString(p.fixed, p.packetID, p.reasonCode, p.reason, p.width())"}, {"pubrec.go", "\treturn fmt.Sprintf(\"%s p%v %s%s %v bytes\",\n\t\tfirstByte(p.fixed).String(),\n\t\tp.packetID,\n\t\tReasonCode(p.reasonCode).String(),\n\t\tfunc() string {\n\t\t\tif p.reasonCode > 0 && len(p.reason) > 0 {\n\t\t\t\treturn \" \" + string(p.reason)\n\t\t\t}\n\t\t\treturn \"\"\n\t\t}(),\n\t\tp.width(),\n\t)", "\treturn ackString(p.fixed, p.packetID, p.reasonCode, p.reason, p.width())"}}},
 		{Name: "rf7-string-built-in-a-builder", Silent: true, Edits: []Edit{{"connack.go", ")\n\nfunc NewConnAck() *ConnAck {\n\treturn &ConnAck{\n\t\tfixed: bits(CONNACK),\n\t}\n}\n\ntype ConnAck struct {\n\tfixed      bits\n\tflags      bits // sessionPresent as 7-1 are reserved\n\treasonCode wuint8\n\n\t// properties\n\tsessionExpiryInterval wuint32\n\treceiveMax            wuint16\n\tmaxQoS                wuint8 // 0 or 1, 2\n\tretainAvailable       wbool\n\tmaxPacketSize         wuint32\n\tassignedClientID      wstring\n\ttopicAliasMax         wuint16\n\treasonString          wstring\n\n\tUserProperties\n\twildcardSubAvailable    wbool\n\tsubIdentifiersAvailable wbool\n\tsharedSubAvailable      wbool\n\tserverKeepAlive         wuint16\n\tresponseInformation     wstring\n\tserverReference         wstring\n\tauthMethod              wstring\n\tauthData                bindata\n}\n\nfunc (p *ConnAck) HasFlag(v byte) bool { return p.flags.Has(v) }\n\nfunc (p *ConnAck) SetSessionPresent(v bool) { p.flags.toggle(1, v) }\nfunc (p *ConnAck) SessionPresent() bool     { return p.flags.Has(1) }\n\nfunc (p *ConnAck) SetSessionExpiryInterval(v uint32) { p.sessionExpiryInterval = wuint32(v) }\nfunc (p *ConnAck) SessionExpiryInterval() uint32     { return uint32(p.sessionExpiryInterval) }\n\nfunc (p *ConnAck) SetReceiveMax(v uint16) { p.receiveMax = wuint16(v) }\nfunc (p *ConnAck) ReceiveMax() uint16     { return uint16(p.receiveMax) }\n\nfunc (p *ConnAck) SetMaxQoS(v uint8) { p.maxQoS = wuint8(v) }\nfunc (p *ConnAck) MaxQoS() uint8     { return uint8(p.maxQoS) }\n\nfunc (p *ConnAck) SetRetainAvailable(v bool) { p.retainAvailable = wbool(v) }\nfunc (p *ConnAck) RetainAvailable() bool     { return bool(p.retainAvailable) }\n\nfunc (p *ConnAck) SetMaxPacketSize(v uint32) { p.maxPacketSize = wuint32(v) }\nfunc (p *ConnAck) MaxPacketSize() uint32     { return uint32(p.maxPacketSize) }\n\nfunc (p *ConnAck) SetAssignedClientID(v string) { p.assignedClientID = wstring(v) }\nfunc (p *ConnAck) AssignedClientID() string     { return string(p.assignedClientID) }\n\nfunc (p *ConnAck) SetTopicAliasMax(v uint16) { p.topicAliasMax = wuint16(v) }\nfunc (p *ConnAck) TopicAliasMax() uint16     { return uint16(p.topicAliasMax) }\n\nfunc (p *ConnAck) SetReasonCode(v ReasonCode) { p.reasonCode = wuint8(v) }\nfunc (p *ConnAck) ReasonCode() ReasonCode     { return ReasonCode(p.reasonCode) }\n\nfunc (p *ConnAck) SetReasonString(v string) { p.reasonString = wstring(v) }\nfunc (p *ConnAck) ReasonString() string     { return string(p.reasonString) }\n\nfunc (p *ConnAck) SetWildcardSubAvailable(v bool) { p.wildcardSubAvailable = wbool(v) }\nfunc (p *ConnAck) WildcardSubAvailable() bool     { return bool(p.wildcardSubAvailable) }\n\nfunc (p *ConnAck) SetSubIdentifiersAvailable(v bool) { p.subIdentifiersAvailable = wbool(v) }\nfunc (p *ConnAck) SubIdentifiersAvailable() bool     { return bool(p.subIdentifiersAvailable) }\n\nfunc (p *ConnAck) SetSharedSubAvailable(v bool) { p.sharedSubAvailable = wbool(v) }\nfunc (p *ConnAck) SharedSubAvailable() bool     { return bool(p.sharedSubAvailable) }\n\nfunc (p *ConnAck) SetServerKeepAlive(v uint16) { p.serverKeepAlive = wuint16(v) }\nfunc (p *ConnAck) ServerKeepAlive() uint16     { return uint16(p.serverKeepAlive) }\n\nfunc (p *ConnAck) SetResponseInformation(v string) { p.responseInformation = wstring(v) }\nfunc (p *ConnAck) ResponseInformation() string     { return string(p.responseInformation) }\n\nfunc (p *ConnAck) SetServerReference(v string) { p.serverReference = wstring(v) }\nfunc (p *ConnAck) ServerReference() string     { return string(p.serverReference) }\n\nfunc (p *ConnAck) SetAuthMethod(v string) { p.authMethod = wstring(v) }\nfunc (p *ConnAck) AuthMethod() string     { return string(p.authMethod) }\n\nfunc (p *ConnAck) SetAuthData(v []byte) { p.authData = bindata(v) }\nfunc (p *ConnAck) AuthData() []byte     { return []byte(p.authData) }\n\n// end settings\n// ----------------------------------------\n\nfunc (p *ConnAck) String() string {\n\treturn withReason(p, fmt.Sprintf(\"%s %s %s %v bytes\",\n\t\tfirstByte(p.fixed).String(),\n\t\tconnAckFlags(p.flags),\n\t\tp.assignedClientID,\n\t\tp.width(),\n\t))\n}\n\nfunc withReason(p HasReason, v string) string {\n\tif code := p.ReasonCode(); code >= 0x80 {\n\t\tif p, ok := p.(interface{ ReasonString() string }); ok {\n\t\t\tif r := p.ReasonString(); r != \"\" {\n\t\t\t\treturn fmt.Sprintf(\"%s %s! %s\", v, code.String(), r)\n\t\t\t}\n\t\t}\n\t\treturn fmt.Sprintf(\"%s %s!\", v, code.String())\n\t}\n\treturn v", "\t\"strings\"\n)\n\nfunc NewConnAck() *ConnAck {\n\treturn &ConnAck{\n\t\tfixed: bits(CONNACK),\n\t}\n}\n\ntype ConnAck struct {\n\tfixed      bits\n\tflags      bits // sessionPresent as 7-1 are reserved\n\treasonCode wuint8\n\n\t// properties\n\tsessionExpiryInterval wuint32\n\treceiveMax            wuint16\n\tmaxQoS                wuint8 // 0 or 1, 2\n\tretainAvailable       wbool\n\tmaxPacketSize         wuint32\n\tassignedClientID      wstring\n\ttopicAliasMax         wuint16\n\treasonString          wstring\n\n\tUserProperties\n\twildcardSubAvailable    wbool\n\tsubIdentifiersAvailable wbool\n\tsharedSubAvailable      wbool\n\tserverKeepAlive         wuint16\n\tresponseInformation     wstring\n\tserverReference         wstring\n\tauthMethod              wstring\n\tauthData                bindata\n}\n\nfunc (p *ConnAck) HasFlag(v byte) bool { return p.flags.Has(v) }\n\nfunc (p *ConnAck) SetSessionPresent(v bool) { p.flags.toggle(1, v) }\nfunc (p *ConnAck) SessionPresent() bool     { return p.flags.Has(1) }\n\nfunc (p *ConnAck) SetSessionExpiryInterval(v uint32) { p.sessionExpiryInterval = wuint32(v) }\nfunc (p *ConnAck) SessionExpiryInterval() uint32     { return uint32(p.sessionExpiryInterval) }\n\nfunc (p *ConnAck) SetReceiveMax(v uint16) { p.receiveMax = wuint16(v) }\nfunc (p *ConnAck) ReceiveMax() uint16     { return uint16(p.receiveMax) }\n\nfunc (p *ConnAck) SetMaxQoS(v uint8) { p.maxQoS = wuint8(v) }\nfunc (p *ConnAck) MaxQoS() uint8     { return uint8(p.maxQoS) }\n\nfunc (p *ConnAck) SetRetainAvailable(v bool) { p.retainAvailable = wbool(v) }\nfunc (p *ConnAck) RetainAvailable() bool     { return bool(p.retainAvailable) }\n\nfunc (p *ConnAck) SetMaxPacketSize(v uint32) { p.maxPacketSize = wuint32(v) }\nfunc (p *ConnAck) MaxPacketSize() uint32     { return uint32(p.maxPacketSize) }\n\nfunc (p *ConnAck) SetAssignedClientID(v string) { p.assignedClientID = wstring(v) }\nfunc (p *ConnAck) AssignedClientID() string     { return string(p.assignedClientID) }\n\nfunc (p *ConnAck) SetTopicAliasMax(v uint16) { p.topicAliasMax = wuint16(v) }\nfunc (p *ConnAck) TopicAliasMax() uint16     { return uint16(p.topicAliasMax) }\n\nfunc (p *ConnAck) SetReasonCode(v ReasonCode) { p.reasonCode = wuint8(v) }\nfunc (p *ConnAck) ReasonCode() ReasonCode     { return ReasonCode(p.reasonCode) }\n\nfunc (p *ConnAck) SetReasonString(v string) { p.reasonString = wstring(v) }\nfunc (p *ConnAck) ReasonString() string     { return string(p.reasonString) }\n\nfunc (p *ConnAck) SetWildcardSubAvailable(v bool) { p.wildcardSubAvailable = wbool(v) }\nfunc (p *ConnAck) WildcardSubAvailable() bool     { return bool(p.wildcardSubAvailable) }\n\nfunc (p *ConnAck) SetSubIdentifiersAvailable(v bool) { p.subIdentifiersAvailable = wbool(v) }\nfunc (p *ConnAck) SubIdentifiersAvailable() bool     { return bool(p.subIdentifiersAvailable) }\n\nfunc (p *ConnAck) SetSharedSubAvailable(v bool) { p.sharedSubAvailable = wbool(v) }\nfunc (p *ConnAck) SharedSubAvailable() bool     { return bool(p.sharedSubAvailable) }\n\nfunc (p *ConnAck) SetServerKeepAlive(v uint16) { p.serverKeepAlive = wuint16(v) }\nfunc (p *ConnAck) ServerKeepAlive() uint16     { return uint16(p.serverKeepAlive) }\n\nfunc (p *ConnAck) SetResponseInformation(v string) { p.responseInformation = wstring(v) }\nfunc (p *ConnAck) ResponseInformation() string     { return string(p.responseInformation) }\n\nfunc (p *ConnAck) SetServerReference(v string) { p.serverReference = wstring(v) }\nfunc (p *ConnAck) ServerReference() string     { return string(p.serverReference) }\n\nfunc (p *ConnAck) SetAuthMethod(v string) { p.authMethod = wstring(v) }\nfunc (p *ConnAck) AuthMethod() string     { return string(p.authMethod) }\n\nfunc (p *ConnAck) SetAuthData(v []byte) { p.authData = bindata(v) }\nfunc (p *ConnAck) AuthData() []byte     { return []byte(p.authData) }\n\n// end settings\n// ----------------------------------------\n\nfunc (p *ConnAck) String() string {\n\treturn withReason(p, fmt.Sprintf(\"%s %s %s %v bytes\",\n\t\tfirstByte(p.fixed).String(),\n\t\tconnAckFlags(p.flags),\n\t\tp.assignedClientID,\n\t\tp.width(),\n\t))\n}\n\n// withReason appends the reason code, and the reason string if any,\n// to v for failures, i.e. reason codes >= 0x80.\nfunc withReason(p HasReason, v string) string {\n\tcode := p.ReasonCode()\n\tif code < 0x80 {\n\t\treturn v\n\t}\n\tvar sb strings.Builder\n\tsb.WriteString(v)\n\tsb.WriteByte(' ')\n\tsb.WriteString(code.String())\n\tsb.WriteByte('!')\n\tif p, ok := p.(interface{ ReasonString() string }); ok {\n\t\tif r := p.ReasonString(); r != \"\" {\n\t\t\tsb.WriteByte(' ')\n\t\t\tsb.WriteString(r)\n\t\t}\n\t}\n\treturn sb.String()"}, {"puback.go", ")\n\n// NewPubAck returns control packet with type PUBACK\nfunc NewPubAck() *PubAck {\n\treturn &PubAck{fixed: bits(PUBACK)}\n}\n\n// A PubAck packet is the response to a Publish packets, depending on\n// the fixed header it can be one of PUBACK, PUBREC, PUBREL or PUBCOMP\ntype PubAck struct {\n\tfixed bits\n\n\tpacketID   wuint16\n\treasonCode wuint8\n\treason     wstring\n\tUserProperties\n}\n\nfunc (p *PubAck) String() string {\n\treturn withReason(p, fmt.Sprintf(\"%s p%v %v bytes\",\n\t\tfirstByte(p.fixed).String(),\n\t\tp.packetID,\n\t\tp.width(),\n\t))", "\t\"strings\"\n)\n\n// NewPubAck returns control packet with type PUBACK\nfunc NewPubAck() *PubAck {\n\treturn &PubAck{fixed: bits(PUBACK)}\n}\n\n// A PubAck packet is the response to a Publish packets, depending on\n// the fixed header it can be one of PUBACK, PUBREC, PUBREL or PUBCOMP\ntype PubAck struct {\n\tfixed bits\n\n\tpacketID   wuint16\n\treasonCode wuint8\n\treason     wstring\n\tUserProperties\n}\n\nfunc (p *PubAck) String() string {\n\treturn withReason(p, fmt.Sprintf(\"%s p%v %v bytes\",\n\t\tfirstByte(p.fixed).String(),\n\t\tp.packetID,\n\t\tp.width(),\n\t))\n}\n\n// ackString returns the short form used by PUBREC and PUBCOMP which\n// always includes the reason code, the reason string follows only if\n// the code is not Success.\nfunc ackString(fixed bits, id wuint16, code wuint8, reason wstring, size int) string {\n\tvar sb strings.Builder\n\tsb.WriteString(firstByte(fixed).String())\n\tfmt.Fprintf(&sb, \" p%v \", id)\n\tsb.WriteString(ReasonCode(code).String())\n\tif code > 0 && len(reason) > 0 {\n\t\tsb.WriteByte(' ')\n\t\tsb.Write(reason)\n\t}\n\tfmt.Fprintf(&sb, \" %v bytes\", size)\n\treturn sb.String()"}, {"pubcomp.go", "\treturn fmt.Sprintf(\"%s p%v %s%s %v bytes\",\n\t\tfirstByte(p.fixed).String(),\n\t\tp.packetID,\n\t\tReasonCode(p.reasonCode).String(),\n\t\tfunc() string {\n\t\t\tif p.reasonCode > 0 && len(p.reason) > 0 {\n\t\t\t\treturn \" \" + string(p.reason)\n\t\t\t}\n\t\t\treturn \"\"\n\t\t}(),\n\t\tp.width(),\n\t)", "\treturn ackString(p.fixed, p.packetID, p.reasonCode, p.reason, p.width())"}, {"pubrec.go", "\treturn fmt.Sprintf(\"%s p%v %s%s %v bytes\",\n\t\tfirstByte(p.fixed).String(),\n\t\tp.packetID,\n\t\tReasonCode(p.reasonCode).String(),\n\t\tfunc() string {\n\t\t\tif p.reasonCode > 0 && len(p.reason) > 0 {\n\t\t\t\treturn \" \" + string(p.reason)\n\t\t\t}\n\t\t\treturn \"\"\n\t\t}(),\n\t\tp.width(),\n\t)", "\treturn ackString(p.fixed, p.packetID, p.reasonCode, p.reason, p.width())"}}},
@@ -1072,6 +1074,8 @@ func checkStringSize(p *Prog, c *Check, fn *ssa.Function, fill *ssa.Function) {
 		switch {
 		case sp.why != "":
 			c.Bad("R10.4", cons, sp.pos, "the size printed before \"bytes\" is not the frame's dry-run size: "+sp.why)
+		case sp.f == fill && isRecvOf(p, fn, sp.recv) && sp.partial != "":
+			c.Unk("R10.4", cons, sp.pos, "the size is printed on some paths of "+sp.partial+" only (another path returns or renders without it): that String states the size for every packet is not decided")
 		case sp.f == fill && isRecvOf(p, fn, sp.recv) && sp.text != nil && !textReachesReturn(p, fn, sp.text, 0, map[ssa.Value]bool{}):
 			c.Unk("R10.4", cons, sp.pos, "the text that states the size is cut, indexed or otherwise transformed on its way to String's result (a helper that shortens long lines drops the trailing \"N bytes\"): that the result still states the size is not decided")
 		case sp.f == fill && isRecvOf(p, fn, sp.recv):
@@ -1162,6 +1166,9 @@ func textReachesReturn(p *Prog, fn *ssa.Function, v ssa.Value, depth int, seen m
 					for _, r2 := range *al.Referrers() {
 						if sl, ok := r2.(*ssa.Slice); ok && sl.Referrers() != nil {
 							for _, r3 := range *sl.Referrers() {
+								if call, ok := r3.(*ssa.Call); ok && AsFmtCall(call) != nil && !fmtKeepsOperandsWhole(AsFmtCall(call)) {
+									return false // `%.120s`: a precision cuts the operand
+								}
 								if call, ok := r3.(*ssa.Call); ok && AsFmtCall(call) != nil && isStringT(call.Type().Underlying()) {
 									if textReachesReturn(p, fn, call, depth+1, seen) {
 										reaches = true
@@ -1182,6 +1189,12 @@ func textReachesReturn(p *Prog, fn *ssa.Function, v ssa.Value, depth int, seen m
 				reaches = true
 			}
 		case *ssa.Phi:
+			// merged with something that is not made from this text (`if big { size = "… KiB" }`): replaced on a path
+			for _, e := range x.Edges {
+				if !textDerivesFrom(e, v, 0) {
+					return false
+				}
+			}
 			if textReachesReturn(p, fn, x, depth+1, seen) {
 				reaches = true
 			}
@@ -1219,6 +1232,53 @@ func textReachesReturn(p *Prog, fn *ssa.Function, v ssa.Value, depth int, seen m
 	return reaches
 }
 
+// textDerivesFrom: e is the text v or is built from it whole (concatenation, a phi of such values).
+func textDerivesFrom(e, v ssa.Value, depth int) bool {
+	if e == v {
+		return true
+	}
+	if depth > 4 {
+		return false
+	}
+	switch x := e.(type) {
+	case *ssa.BinOp:
+		return x.Op == token.ADD && (textDerivesFrom(x.X, v, depth+1) || textDerivesFrom(x.Y, v, depth+1))
+	case *ssa.Phi:
+		for _, e2 := range x.Edges {
+			if e2 != ssa.Value(x) && !textDerivesFrom(e2, v, depth+1) {
+				return false
+			}
+		}
+		return true
+	}
+	return false
+}
+
+// fmtKeepsOperandsWhole: the fmt call prints its operands in full — no format, or a constant format without a
+// precision, an argument index or a `*` in any verb.
+func fmtKeepsOperandsWhole(fc *FmtCall) bool {
+	if !fc.HasFmt {
+		return true
+	}
+	if !fc.ConstF {
+		return false
+	}
+	f := fc.Format
+	for i := 0; i < len(f); i++ {
+		if f[i] != '%' {
+			continue
+		}
+		i++
+		for i < len(f) && strings.IndexByte("+-# 0123456789.[]*", f[i]) >= 0 {
+			if f[i] == '.' || f[i] == '*' || f[i] == '[' {
+				return false
+			}
+			i++
+		}
+	}
+	return true
+}
+
 // builderTextReaches: w is (the address of, possibly as an io.Writer) a local strings.Builder / bytes.Buffer that is
 // only written to, never reset or truncated, and whose String() reaches fn's result whole.
 func builderTextReaches(p *Prog, fn *ssa.Function, w ssa.Value, depth int, seen map[ssa.Value]bool) bool {
@@ -1232,7 +1292,20 @@ func builderTextReaches(p *Prog, fn *ssa.Function, w ssa.Value, depth int, seen 
 	reaches := false
 	for _, r := range *al.Referrers() {
 		switch x := r.(type) {
-		case *ssa.DebugRef, *ssa.MakeInterface:
+		case *ssa.DebugRef:
+		case *ssa.MakeInterface:
+			// as an io.Writer: only the destination of fmt.Fprint* calls
+			if x.Referrers() != nil {
+				for _, r2 := range *x.Referrers() {
+					if _, isD := r2.(*ssa.DebugRef); isD {
+						continue
+					}
+					call, isCall := r2.(*ssa.Call)
+					if !isCall || AsFmtCall(call) == nil || len(call.Call.Args) == 0 || call.Call.Args[0] != ssa.Value(x) {
+						return false
+					}
+				}
+			}
 		case *ssa.Call:
 			sc := x.Call.StaticCallee()
 			if sc == nil || len(x.Call.Args) == 0 || x.Call.Args[0] != ssa.Value(al) {
@@ -1265,6 +1338,20 @@ type sizePrint struct {
 	why  string
 	via  string
 	text ssa.Value // the rendered text (result of the print), when it is made in the examined function itself
+	// the print is not made on every path through the function it sits in (`if n >= 10240 { return "… KiB" }` in
+	// front of it): the size is stated for some packets only
+	partial string
+}
+
+// printOnEveryPath: the block of the print dominates every return of its function.
+func printOnEveryPath(ins ssa.Instruction) bool {
+	fn := ins.Parent()
+	for _, b := range fn.Blocks {
+		if _, isRet := terminator(b).(*ssa.Return); isRet && !ins.Block().Dominates(b) {
+			return false
+		}
+	}
+	return true
 }
 
 func sizePrintsOf(p *Prog, fn *ssa.Function, depth int, seen map[*ssa.Function]bool) []sizePrint {
@@ -1284,6 +1371,9 @@ func sizePrintsOf(p *Prog, fn *ssa.Function, depth int, seen map[*ssa.Function]b
 						num = lb.Y
 					}
 					sp := sizePrint{pos: posOf(p, bo)}
+					if !printOnEveryPath(bo) {
+						sp.partial = qname(fn)
+					}
 					if nc, ok := num.(*ssa.Call); ok {
 						if sc := nc.Call.StaticCallee(); sc != nil && (fullName(sc) == "strconv.Itoa" || fullName(sc) == "strconv.FormatInt" || fullName(sc) == "strconv.FormatUint") && len(nc.Call.Args) >= 1 {
 							arg := stripConvs(nc.Call.Args[0])
@@ -1340,6 +1430,9 @@ func sizePrintsOf(p *Prog, fn *ssa.Function, depth int, seen map[*ssa.Function]b
 					arg = mi.X
 				}
 				sp := sizePrint{pos: posOf(p, call)}
+				if !printOnEveryPath(call) {
+					sp.partial = qname(fn)
+				}
 				if depth == 0 && call.Type() != nil && isStringT(call.Type().Underlying()) {
 					sp.text = call
 				}
